@@ -405,9 +405,34 @@ impl<'a> World<'a> {
         if self.dead || self.sides[s].tcb.is_none() {
             return;
         }
+        let pre = self.snap(s);
         let segs = self.call(s, CallKind::Other, "segments", |t| t.segments());
         let Some(segs) = segs else { return };
         for seg in segs {
+            // new data (beyond the SND.NXT the call started from) stays inside the send window
+            // the TCB itself holds; what that window is, is the business of check_window_variables
+            if let Some(pre) = &pre {
+                let len = seg.text.len() as u32;
+                let end = seg.header.seq.wrapping_add(len);
+                let is_new = len > 0 && (end.wrapping_sub(pre.snd_nxt) as i32) > 0;
+                let edge = pre.snd_una.wrapping_add(pre.snd_wnd as u32);
+                let synced = matches!(pre.state, State::Established | State::CloseWait | State::FinWait1 | State::FinWait2 | State::Closing | State::LastAck);
+                if is_new && synced {
+                    self.out.count("probe_new_data_checked_against_the_send_window");
+                    if (end.wrapping_sub(edge) as i32) > 0 {
+                        self.violate(
+                            "window-edge",
+                            "beyond-snd-una-plus-snd-wnd",
+                            format!(
+                                "side {s} emitted new data ending at iss+{} while SND.UNA+SND.WND was iss+{} (SND.WND {})",
+                                end.wrapping_sub(pre.iss),
+                                edge.wrapping_sub(pre.iss),
+                                pre.snd_wnd
+                            ),
+                        );
+                    }
+                }
+            }
             self.emitted(s, &seg, false);
             self.net[1 - s].push(seg);
         }
